@@ -152,6 +152,19 @@ func check(c concCase, repeat int) (msg, discard string) {
 					}
 					var res run.Result
 					switch {
+					case c.Mode == "code-cancel-mix" && g%2 == 1:
+						// every other goroutine runs under a context that fires after a
+						// few polls and keeps calling Next until it returns false, as
+						// consumers do; the neighbours must not notice
+						if m := cancelledRun(code, in, 1+(g*7+r*3)%40, base.Vals); m != "" {
+							mu.Lock()
+							if failure == "" {
+								failure = fmt.Sprintf("goroutine %d repetition %d (cancelled run): %s", g, r, m)
+							}
+							mu.Unlock()
+							return
+						}
+						continue
 					case strings.HasPrefix(c.Mode, "code"):
 						res = run.Exec(code, in, steps, maxOuts)
 					case strings.HasPrefix(c.Mode, "query"):
@@ -236,7 +249,54 @@ func inputGen() *rapid.Generator[any] {
 	return rapid.OneOf(rapid.SampledFrom(fixed), rapid.SampledFrom(fixed), gen.Value(gen.Opt{MaxDepth: 3, MaxWidth: 3, SmallInts: true}))
 }
 
-var modes = []string{"code-shared-input", "code-shared-input", "code-own-input", "query-shared-input", "query-own-input", "compile-each"}
+var modes = []string{"code-shared-input", "code-shared-input", "code-own-input", "query-shared-input", "query-own-input", "compile-each", "code-cancel-mix"}
+
+// cancelledRun runs code under a context that fires at the given poll and
+// drains the iterator as a consumer would: the values before the context's
+// error are a prefix of the uncancelled outputs, and after that error (or the
+// end) Next returns false for good.
+func cancelledRun(code *gojq.Code, in any, limit int, want []any) (msg string) {
+	defer func() {
+		if r := recover(); r != nil {
+			msg = fmt.Sprintf("panic: %v", r)
+		}
+	}()
+	ctx := run.NewCountCtx(limit)
+	it := code.RunWithContext(ctx, in)
+	n, ended := 0, false
+	for i := 0; i < maxOuts+50; i++ {
+		x, ok := it.Next()
+		if !ok {
+			// two more polls: false for good
+			for k := 0; k < 2; k++ {
+				if y, ok := it.Next(); ok {
+					return fmt.Sprintf("Next returned %s after it had returned false", univ.Show(y))
+				}
+			}
+			return ""
+		}
+		if ended {
+			return fmt.Sprintf("Next returned %s after the context's error", univ.Show(x))
+		}
+		if e, isErr := x.(error); isErr {
+			if ctx.Fired() && e == ctx.Err() {
+				ended = true
+				continue
+			}
+			// an error of the program itself: terminal for this comparison
+			return ""
+		}
+		if n >= len(want) || !univ.Same(x, want[n]) {
+			w := "<nothing>"
+			if n < len(want) {
+				w = univ.Show(want[n])
+			}
+			return fmt.Sprintf("output %d is %s, the uncancelled run gives %s", n, univ.Show(x), w)
+		}
+		n++
+	}
+	return ""
+}
 
 func replayCase(sub string, raw json.RawMessage) string {
 	var c concCase
